@@ -69,6 +69,10 @@ fn check_enc_accessors(eng: &str, codec: &str, k: usize, r: usize, bytes: usize,
                 if result.recovery_iter().count() != r {
                     return Err((format!("second iterator yields {r} items"), "different count".into()));
                 }
+                if r <= 12 && round == 0 {
+                    let want_items: Vec<Vec<u8>> = want.clone();
+                    n += check_iter_protocol("recovery_iter", || result.recovery_iter(), |s: &[u8]| s.to_vec(), &want_items)?;
+                }
                 drop(result);
             }
             Ok(n)
@@ -78,6 +82,64 @@ fn check_enc_accessors(eng: &str, codec: &str, k: usize, r: usize, bytes: usize,
         Ok(r) => r,
         Err(p) => Err(("no panic".into(), format!("PANIC: {p}"))),
     }
+}
+
+/// Iterator protocol of a result iterator: whatever std adaptor a caller uses (nth, skip, step_by, count,
+/// last, size_hint) after consuming any prefix, the items are the expected ones in order.
+fn check_iter_protocol<A, T: PartialEq + Clone + std::fmt::Debug, I: Iterator<Item = A>>(what: &str, mk: impl Fn() -> I, proj: impl Fn(A) -> T + Copy, want: &[T]) -> Result<u64, V> {
+    let len = want.len();
+    let mut n = 0u64;
+    for j in 0..=len {
+        let advance = |it: &mut I| {
+            for _ in 0..j {
+                it.next();
+            }
+        };
+        // size_hint must bracket the truth at every point
+        let mut it = mk();
+        advance(&mut it);
+        let (lo, hi) = it.size_hint();
+        if lo > len - j || hi.map(|h| h < len - j).unwrap_or(false) {
+            return Err((format!("{what}: size_hint after {j} items brackets the {} remaining items", len - j), format!("({lo}, {hi:?})")));
+        }
+        let rest: Vec<T> = it.take(len + 4).map(proj).collect();
+        if rest != want[j..] {
+            return Err((format!("{what}: collect() after {j} items yields the remaining {} items", len - j), format!("{} items", rest.len())));
+        }
+        let mut it = mk();
+        advance(&mut it);
+        if it.count() != len - j {
+            return Err((format!("{what}: count() after {j} items == {}", len - j), "different".into()));
+        }
+        let mut it = mk();
+        advance(&mut it);
+        if it.last().map(proj) != want[j..].last().cloned() {
+            return Err((format!("{what}: last() after {j} items == the last item"), "different".into()));
+        }
+        for skip in 0..=(len - j + 1) {
+            let mut it = mk();
+            advance(&mut it);
+            let got = it.nth(skip).map(proj);
+            if got != want.get(j + skip).cloned() {
+                return Err((format!("{what}: nth({skip}) after {j} items == item {} ({:?})", j + skip, want.get(j + skip).map(|_| "Some").unwrap_or("None")), format!("{:?}", got.map(|g| format!("{g:?}").chars().take(60).collect::<String>()))));
+            }
+            let nxt = it.next().map(proj);
+            if nxt != want.get(j + skip + 1).cloned() {
+                return Err((format!("{what}: next() after {j} items and nth({skip}) == item {}", j + skip + 1), format!("{:?}", nxt.map(|g| format!("{g:?}").chars().take(60).collect::<String>()))));
+            }
+            let mut it = mk();
+            advance(&mut it);
+            // (bounded: a broken nth() can make an adaptor chain endless)
+            let got: Vec<T> = it.skip(skip).step_by(2).take(len + 4).map(proj).collect();
+            let exp: Vec<T> = want.iter().skip(j + skip).step_by(2).cloned().collect();
+            if got != exp {
+                return Err((format!("{what}: skip({skip}).step_by(2) after {j} items yields items {}, {}, ..", j + skip, j + skip + 2), format!("{} items (expected {})", got.len(), exp.len())));
+            }
+            n += 3;
+        }
+        n += 4;
+    }
+    Ok(n)
 }
 
 /// decoder result accessors in the state where shards `og`/`rg` were given
@@ -125,6 +187,10 @@ fn check_dec_accessors(g: &Group, og: &[usize], rg: &[usize], recovery_first: bo
                     return Err((format!("iterator returns None forever after {} items (call {extra} after exhaustion)", want.len()), format!("Some(index {idx})")));
                 }
                 n += 1;
+            }
+            if want.len() <= 8 {
+                let want_items: Vec<(usize, Vec<u8>)> = want.iter().map(|&i| (i, g.originals[i].clone())).collect();
+                n += check_iter_protocol("restored_original_iter", || result.restored_original_iter(), |(i, s): (usize, &[u8])| (i, s.to_vec()), &want_items)?;
             }
             Ok(n)
         })
